@@ -1,7 +1,8 @@
 (* C16 — Sync adopts only verified, strictly longer chains within the rollback window.
    Only statements; each is closed by a lemma proved in theories/. The verification oracles: [bvalid chain pool b] =
    Supervisor.ApplyBlock accepts account block b on top of [chain] with the unconfirmed pool [pool];
-   [mvalid chain d] = Supervisor.ApplyMomentum accepts the delivered momentum d on top of [chain].
+   [mvalid chain pool d] = Supervisor.ApplyMomentum accepts the delivered momentum d on top of [chain] with the pool as
+   it is after d's account blocks went through the loop.
    The node is (own momentums, identifiers of the pooled unconfirmed account blocks). InsertChain does NOT verify a
    delivered block that has a patch in the pool; [pool_verified] is the invariant that makes this sound: every
    pooled block passed verification on the chain or on an earlier state of it that the chain still extends. The
@@ -15,7 +16,7 @@ Open Scope Z_scope.
    on a state the chain still extends), passed full verification and extended the frontier; and the pool invariant
    holds again afterwards. *)
 Theorem C16_only_verified :
-  forall (bvalid : list smom -> list blk -> blk -> bool) (mvalid : list smom -> dmom -> bool) fixed c p ds r c' p',
+  forall (bvalid : list smom -> list blk -> blk -> bool) (mvalid : list smom -> list blk -> dmom -> bool) fixed c p ds r c' p',
   pool_verified bvalid c p ->
   insert_chain bvalid mvalid fixed true c p ds = (r, (c', p')) ->
   exists kept, is_prefix kept c /\ grown bvalid mvalid kept c' /\ pool_verified bvalid c' p'.
@@ -25,7 +26,7 @@ Proof. exact only_verified. Qed.
    AddAccountBlocks), starting with an empty pool: every momentum on the chain is one the node started with or was
    adopted after full verification of itself and of all its account blocks, and every pooled block is verified. *)
 Theorem C16_history_only_verified :
-  forall (bvalid : list smom -> list blk -> blk -> bool) (mvalid : list smom -> dmom -> bool) c0 ops,
+  forall (bvalid : list smom -> list blk -> blk -> bool) (mvalid : list smom -> list blk -> dmom -> bool) c0 ops,
   Forall (justified bvalid mvalid c0) (fst (run bvalid mvalid (c0, []) ops)) /\
   pool_verified bvalid (fst (run bvalid mvalid (c0, []) ops)) (snd (run bvalid mvalid (c0, []) ops)).
 Proof. exact history_only_verified. Qed.
@@ -33,7 +34,7 @@ Proof. exact history_only_verified. Qed.
 (* When own momentums are abandoned nothing of the old pool takes part: the result is that of the apply loop started
    on the rolled-back chain with an EMPTY pool (every delivered account block is verified on the new branch). *)
 Theorem C16_rollback_empties_pool :
-  forall (bvalid : list smom -> list blk -> blk -> bool) (mvalid : list smom -> dmom -> bool) fixed c p ds r c' p',
+  forall (bvalid : list smom -> list blk -> blk -> bool) (mvalid : list smom -> list blk -> dmom -> bool) fixed c p ds r c' p',
   insert_chain bvalid mvalid fixed true c p ds = (r, (c', p')) -> ~ is_prefix c c' ->
   exists target start rest,
     skip_known c ds 0 = (start, rest) /\ rest <> [] /\
@@ -53,16 +54,16 @@ Proof. exact pool_kept_refuted. Qed.
    the element that failed on top of the chain the node now holds: one of its account blocks without a patch in the
    pool, or the momentum itself (everything appended before it was verified, by C16_only_verified). *)
 Theorem C16_failure_index :
-  forall (bvalid : list smom -> list blk -> blk -> bool) (mvalid : list smom -> dmom -> bool) fixed clears c p ds i c' p',
+  forall (bvalid : list smom -> list blk -> blk -> bool) (mvalid : list smom -> list blk -> dmom -> bool) fixed clears c p ds i c' p',
   insert_chain bvalid mvalid fixed clears c p ds = (ICErr i EInvalid, (c', p')) ->
   exists pre d post, ds = pre ++ d :: post /\ i = Z.of_nat (length pre) /\
     ((exists b, In b (d_blocks d) /\ pooled b p' = false /\ bvalid c' p' b = false) \/
-     known_prev c' (d_mom d) && mvalid c' d = false).
+     known_prev c' (d_mom d) && mvalid c' p' d = false).
 Proof. exact failure_index. Qed.
 
 (* Re-delivering momentums the node already has (same hash at the same height) changes nothing and reports (0, ok). *)
 Theorem C16_idempotent :
-  forall (bvalid : list smom -> list blk -> blk -> bool) (mvalid : list smom -> dmom -> bool) fixed clears c p ds, ds <> [] ->
+  forall (bvalid : list smom -> list blk -> blk -> bool) (mvalid : list smom -> list blk -> dmom -> bool) fixed clears c p ds, ds <> [] ->
   Forall (fun d => exists our, by_height c (s_height (d_mom d)) = Some our /\ s_hash our = s_hash (d_mom d)) ds ->
   insert_chain bvalid mvalid fixed clears c p ds = (ICOk, (c, p)).
 Proof. exact idempotent. Qed.
@@ -70,7 +71,7 @@ Proof. exact idempotent. Qed.
 (* If any own momentum is abandoned (the old chain is not a prefix of the new one), then the first unknown delivered
    momentum sits directly on an own momentum at most 30 below the frontier, and the batch ends above the frontier. *)
 Theorem C16_leave_implies :
-  forall (bvalid : list smom -> list blk -> blk -> bool) (mvalid : list smom -> dmom -> bool) fixed clears c p ds r c' p',
+  forall (bvalid : list smom -> list blk -> blk -> bool) (mvalid : list smom -> list blk -> dmom -> bool) fixed clears c p ds r c' p',
   insert_chain bvalid mvalid fixed clears c p ds = (r, (c', p')) -> ~ is_prefix c c' ->
   exists start head rest' fr target,
     skip_known c ds 0 = (start, head :: rest') /\ frontier c = Some fr /\
@@ -84,7 +85,7 @@ Proof. exact leave_implies. Qed.
    the lock [w st] - own momentums of THAT state (the other writer's included) are abandoned only for a batch whose first
    unknown momentum sits on an own momentum at most 30 below the frontier under the lock, and that ends above it. *)
 Theorem C16_decides_under_lock :
-  forall (bvalid : list smom -> list blk -> blk -> bool) (mvalid : list smom -> dmom -> bool) fixed clears
+  forall (bvalid : list smom -> list blk -> blk -> bool) (mvalid : list smom -> list blk -> dmom -> bool) fixed clears
          (w : nstate -> nstate) st ds st1 r c' p',
   insert_chain_locked bvalid mvalid fixed clears w st ds = (st1, (r, (c', p'))) ->
   st1 = w st /\
@@ -99,7 +100,7 @@ Proof. exact decides_under_lock. Qed.
 (* ... in particular, when the node's own pillar produced momentums while the batch was waiting for the lock, the node
    leaves its chain (these momentums included) only for a delivered chain ending above the last of them. *)
 Theorem C16_longer_than_own_production :
-  forall (bvalid : list smom -> list blk -> blk -> bool) (mvalid : list smom -> dmom -> bool) fixed clears
+  forall (bvalid : list smom -> list blk -> blk -> bool) (mvalid : list smom -> list blk -> dmom -> bool) fixed clears
          c p own d ds st1 r c' p',
   insert_chain_locked bvalid mvalid fixed clears (produce_all (own ++ [d])) (c, p) ds = (st1, (r, (c', p'))) ->
   ~ is_prefix (c ++ map d_mom (own ++ [d])) c' ->
@@ -121,7 +122,7 @@ Proof. exact stale_snapshot_refuted. Qed.
 (* After fix 777dfea no delivered batch makes InsertChain panic (empty batch, first unknown momentum above
    frontier+1 or at height 0, any heights, any hashes) ... *)
 Theorem C16_no_panic :
-  forall (bvalid : list smom -> list blk -> blk -> bool) (mvalid : list smom -> dmom -> bool) clears c p ds,
+  forall (bvalid : list smom -> list blk -> blk -> bool) (mvalid : list smom -> list blk -> dmom -> bool) clears c p ds,
   fst (insert_chain bvalid mvalid true clears c p ds) <> ICPanic.
 Proof. exact no_panic. Qed.
 
@@ -144,7 +145,7 @@ Proof. exact leave_only_for_valid_refuted. Qed.
    whose account blocks and momentums pass verification in order on top of the fork point (starting from the emptied
    pool), leaving ends with ALL of it adopted, strictly longer. *)
 Theorem C16_leave_only_for_valid_partial :
-  forall (bvalid : list smom -> list blk -> blk -> bool) (mvalid : list smom -> dmom -> bool) c p ds r c' p',
+  forall (bvalid : list smom -> list blk -> blk -> bool) (mvalid : list smom -> list blk -> dmom -> bool) c p ds r c' p',
   wf_chain c ->
   insert_chain bvalid mvalid true true c p ds = (r, (c', p')) -> ~ is_prefix c c' ->
   forall start head rest', skip_known c ds 0 = (start, head :: rest') ->
@@ -162,7 +163,7 @@ Example C16_adopt_example :
   (ICOk, ([mkS 1 0 1; mkS 2 1 2; mkS 13 2 3; mkS 14 13 4; mkS 15 14 5; mkS 16 15 6], [])).
 Proof. vm_compute. reflexivity. Qed.
 Example C16_pooled_block_skipped_example :
-  insert_chain (fun _ _ _ => false) all_m true true ex_local [b77] [mkD (mkS 6 5 6) [b77]] =
+  insert_chain (fun _ _ _ => false) all_m true true ex_local [b77] [mkD (mkS 6 5 6) [b77] [b77]] =
   (ICOk, (ex_local ++ [mkS 6 5 6], [])).
 Proof. vm_compute. reflexivity. Qed.
 Example C16_under_lock_example :
@@ -173,6 +174,32 @@ Example C16_pool_dropped_example :
   insert_chain ex_ack5 all_m true true ex_local [b77] ex_side77 =
   (ICErr 1 EInvalid, ([mkS 1 0 1; mkS 2 1 2; mkS 13 2 3], [])).
 Proof. exact pool_dropped_example. Qed.
+
+(* What an adopted momentum LISTS. Supervisor.ApplyMomentum with its pool part explicit ([apply_momentum false rest]:
+   vm.MomentumVM.applyMomentum takes the pool's patch of every header of the content; a header without a patch is a
+   nil-pointer panic recovered as ErrVmRunPanic): the resulting chain is a prefix of the old one extended only by momentums
+   EVERY listed block of which passed verification on a state the chain still extends - whether or not the sync loop
+   looked at a block for that header (it skips delivered BlockTypeContractSend blocks; a header may come without any
+   block) -, and which passed everything else ApplyMomentum checks. *)
+Theorem C16_adopted_content_verified :
+  forall (bvalid : list smom -> list blk -> blk -> bool) (rest : list smom -> dmom -> bool) fixed c p ds r c' p',
+  pool_verified bvalid c p ->
+  insert_chain bvalid (apply_momentum false rest) fixed true c p ds = (r, (c', p')) ->
+  exists kept, is_prefix kept c /\ grown_listed bvalid rest kept c' /\ pool_verified bvalid c' p'.
+Proof. exact adopted_content_verified. Qed.
+
+(* ... and the panic is needed: in the variant that skips a header without a patch (`patch == nil || len(patch.Dump()) == 0`
+   in momentumStore.AddAccountBlockTransaction) a momentum of the elected producer that lists a bare contract send -
+   delivered with it, skipped by the loop, carried by no contract receive - is adopted although the block verifies nowhere. *)
+Theorem C16_unheld_header_skipped_refuted :
+  exists bvalid rest c ds c' p',
+    wf_chain c /\ pool_verified bvalid c [] /\
+    insert_chain bvalid (apply_momentum true rest) true true c [] ds = (ICOk, (c', p')) /\
+    exists d h, In d ds /\ In (d_mom d) c' /\ In h (d_content d) /\ forall c0 p0, bvalid c0 p0 h = false.
+Proof. exact unheld_header_skipped_refuted. Qed.
+Example C16_unheld_header_example :
+  insert_chain none_b (apply_momentum false all_r) true true ex_local [] ex_listing = (ICErr 0 EInvalid, (ex_local, [])).
+Proof. exact unheld_header_example. Qed.
 
 (* ---- the side-chain decision of the model IS the code: the statement `if head.Previous() != ourFrontier.Identifier()`
    of chainBridge.InsertChain translated from /repo's source by go2coq on every run (a fragment: gen/PureSync.v), with
